@@ -25,6 +25,7 @@ from sa.pyfront import Program
 from sa.symex import Interp
 
 RULES = {
+    "R-C15-g": "== compares the common values (and shapes) exactly: no numpy.isclose / allclose / math.isclose on them, whose relative tolerance makes nearby large codes equal and == non-transitive",
     "R-C15-f": "the class reads as a dict through dict's own protocol: __len__ (entry count - the term of __eq__ that notices keys missing from self), __iter__, __contains__, __getitem__, keys, __bool__, __hash__ are inherited or merely delegate",
     "R-C15-e": "no library operation leaves an entry with an empty row list (== compares entry counts, so such an index differs from its twin with the same dense content): imported from C07 rule b",
     "R-C15-a": "a subclass of a builtin with rich comparisons that defines __eq__ defines __ne__ as its negation",
@@ -339,6 +340,27 @@ def rule_d(prog, rep):
         rep.check(c == tm.FALSE, "R-C15-d", fi.fq, "constant result of __eq__ is False", "", "returns constant %s" % tm.show(c))
 
 
+def rule_g(prog, rep):
+    """R-C15-g: the three things == compares are compared EXACTLY.  A tolerant comparison of the common values
+    (numpy.isclose / allclose / math.isclose - e.g. to make a NaN common value equal to itself) is relative: integer codes
+    from about 1e5 on that differ by a few units compare equal, so indexes with different dense contents are ==, and
+    == is not transitive."""
+    fi, I, fr = run(prog, "iindex.__eq__")  # helpers inlined
+    self_t, other = tm.param("self"), tm.param(fi.params()[1])
+    tol = [e for e in I.events if e.kind == "call" and (e["name"] or "") in ("numpy.isclose", "numpy.allclose", "math.isclose", "numpy.testing.assert_allclose")]
+    cons = "== compares shape, common value and row ids exactly (no tolerance)"
+    bad = [e for e in tol if any(tm.contains(a, lambda x: x.op == "attr" and x.args[1] in ("common", "shape") and x.args[0] in (self_t, other)) for a in e["args"])]
+    if bad:
+        e = bad[0]
+        rep.violated("R-C15-g", "%s@%d" % (e.fi.fq, e.line), cons,
+                     "the common values (or shapes) are compared with %s, a RELATIVE tolerance (rtol=1e-5 by default): two indexes whose common values are large codes a few units apart - and that otherwise agree - are equal although their dense arrays differ" % e["name"],
+                     witness={"history": "from_array([202401]*7 + [7]) == from_array([202403]*7 + [7]) is True; 202401 vs 202405 is False while 202403 equals both: == is not transitive"})
+    elif tol:
+        rep.undecided("R-C15-g", "%s@%d" % (tol[0].fi.fq, tol[0].line), cons, "a tolerant comparison (%s) is used inside ==; what it compares is not recognised" % tol[0]["name"])
+    else:
+        rep.proved("R-C15-g", fi.fq, cons, "no isclose / allclose in == or its helpers")
+
+
 DICT_PROTOCOL = ("__len__", "__iter__", "__contains__", "__getitem__", "__bool__", "keys", "__hash__")
 
 
@@ -406,6 +428,7 @@ def main(tier):
     rule_c(prog, rep)
     rule_d(prog, rep)
     rep.floor("R-C15-f", 7, rule_f(prog, rep))
+    rule_g(prog, rep)
     # R-C15-e: == compares the NUMBER of entries, so two indexes with the same dense content are equal only if neither
     # carries an empty entry: no library operation stores one (R-C07-b of the C07 analysis)
     import c07
